@@ -22,8 +22,9 @@ theorem panicSites_ok : panicSites = ([
   "pkg/ip/net_set.go:NetSet.getNetMaps idx=0 slice=0 assert=0 panic=1 mustcompile=0 timederef=0",
   "pkg/ip/net_set.go:ipNetMap.has idx=1 slice=0 assert=0 panic=1 mustcompile=0 timederef=0",
   "pkg/ip/realclientip.go:xForwardedForClientIPParser.GetRealClientIP idx=0 slice=1 assert=0 panic=0 mustcompile=0 timederef=0",
-  "pkg/sessions/cookie/session_store.go:SessionStore.clearCookiesExcept idx=1 slice=0 assert=0 panic=0 mustcompile=1 timederef=0",
+  "pkg/sessions/cookie/session_store.go:SessionStore.clearCookiesExcept idx=1 slice=0 assert=0 panic=0 mustcompile=0 timederef=0",
   "pkg/sessions/cookie/session_store.go:SessionStore.setSessionCookie idx=1 slice=0 assert=0 panic=0 mustcompile=0 timederef=0",
+  "pkg/sessions/cookie/session_store.go:isSessionCookieName idx=0 slice=1 assert=0 panic=0 mustcompile=0 timederef=0",
   "pkg/sessions/cookie/session_store.go:joinCookies idx=3 slice=0 assert=0 panic=0 mustcompile=0 timederef=0",
   "pkg/sessions/cookie/session_store.go:splitCookie idx=0 slice=2 assert=0 panic=0 mustcompile=0 timederef=0",
   "pkg/sessions/cookie/session_store.go:splitCookieName idx=0 slice=1 assert=0 panic=0 mustcompile=0 timederef=0",
@@ -75,6 +76,6 @@ theorem validate_guards_ok : validate_guards = (["len(parts) != 3", "checkSignat
 
 theorem extractState_guards_ok : extractState_guards = (["lastChar <= len(state)"] : List String) := rfl
 
-theorem clearRegex_args_ok : clearRegex_args = (["fmt.Sprintf(\"^%s(_\\\\d+)?$\", regexp.QuoteMeta(s.Cookie.Name))"] : List String) := rfl
+theorem clearRegex_args_ok : clearRegex_args = ([] : List String) := rfl
 
 end O2P.Expect.C19
